@@ -259,7 +259,38 @@ func drawHasher(g *gen.G, label string) (hash.Hasher, string) {
 		return &scriptHasher{out: out, size: 128}, fmt.Sprintf("scripted:%x", out[:8])
 	}
 	tag := drawTag(g, label+"Tag")
-	return crypto.NewExpandMsgXOFKMAC128(tag), "kmac:" + tag
+	h := crypto.NewExpandMsgXOFKMAC128(tag)
+	if g.Chance(label+"UsedBefore", 1, 4) {
+		// a hasher object with a history: bytes were written to it earlier and never reset.  Sign / Verify hash with
+		// ComputeHash, which is documented to be independent of anything written before (and to leave a KMAC128 hasher
+		// untouched), so every result must be what a fresh hasher with the same tag gives.
+		_, _ = h.Write(g.Bytes(label+"PriorWrite", 1, 40))
+		g.Class("hasher:writtenToBefore")
+	}
+	hasherTags.Lock()
+	if len(hasherTags.m) > 4096 {
+		hasherTags.m = map[hash.Hasher]string{}
+	}
+	hasherTags.m[h] = tag
+	hasherTags.Unlock()
+	return h, "kmac:" + tag
+}
+
+// hasherTags remembers the domain tag of the KMAC hashers handed out by drawHasher, so that the reference value H(m)
+// can be taken from a fresh hasher object instead of the (possibly already used) one given to the code under test.
+var hasherTags = struct {
+	sync.Mutex
+	m map[hash.Hasher]string
+}{m: map[hash.Hasher]string{}}
+
+func freshTwin(h hash.Hasher) hash.Hasher {
+	hasherTags.Lock()
+	tag, ok := hasherTags.m[h]
+	hasherTags.Unlock()
+	if ok {
+		return crypto.NewExpandMsgXOFKMAC128(tag)
+	}
+	return h
 }
 
 // sigSuite is the signature ciphersuite the documentation says NewExpandMsgXOFKMAC128 appends to the domain tag.
@@ -322,6 +353,7 @@ func drawMsg(g *gen.G, label string) []byte {
 // hashToG1 obtains H(m) for the hasher as the signature of scalar 1, decoded and
 // subgroup-checked by the oracle (hash-to-curve itself is outside the oracle).
 func hashToG1(g *gen.G, msg []byte, h hash.Hasher) bls381.G1 {
+	h = freshTwin(h)
 	sk1 := decodeSK(g, one)
 	s, err := sk1.Sign(msg, h)
 	if err != nil {
